@@ -35,14 +35,70 @@ func checkC19(c *Ctx, r *Report) {
 			if fn := callee(info, call); fn == nil || fn.Name() != "genCommonFunc" {
 				return true
 			}
-			for _, a := range call.Args {
-				if se, ok := unparen(a).(*ast.SelectorExpr); ok {
-					if fo, ok := info.Uses[se.Sel].(*types.Func); ok {
-						if ref := c.FuncOf(fo); ref != nil {
-							entries = append(entries, ref)
+			addFunc := func(e ast.Expr) bool {
+				var id *ast.Ident
+				switch x := unparen(e).(type) {
+				case *ast.SelectorExpr:
+					id = x.Sel
+				case *ast.Ident:
+					id = x
+				}
+				if id == nil {
+					return false
+				}
+				if fo, ok := info.Uses[id].(*types.Func); ok {
+					if ref := c.FuncOf(fo); ref != nil {
+						for _, have := range entries {
+							if have == ref {
+								return true
+							}
 						}
+						entries = append(entries, ref)
+						return true
 					}
 				}
+				return false
+			}
+			for _, a := range call.Args {
+				if addFunc(a) {
+					continue
+				}
+				// a local taken from a constant dispatch table: `gen, ok := table[name]` with a package-level
+				// `var table = map[string]genfun{"go": F, …}` that nothing assigns — every function of the table
+				lo, isLocal := identObj(info, a).(*types.Var)
+				if !isLocal {
+					continue
+				}
+				ast.Inspect(f.Decl.Body, func(m ast.Node) bool {
+					as, ok := m.(*ast.AssignStmt)
+					if !ok || len(as.Rhs) != 1 || len(as.Lhs) == 0 || identObj(info, as.Lhs[0]) != types.Object(lo) {
+						return true
+					}
+					ix, ok := unparen(as.Rhs[0]).(*ast.IndexExpr)
+					if !ok {
+						return true
+					}
+					tv, ok := identObj(info, ix.X).(*types.Var)
+					if !ok || tv.Pkg() == nil || tv.Parent() != tv.Pkg().Scope() {
+						return true
+					}
+					init, assigned := pkgVarInitOf(f, tv)
+					if assigned || init == nil {
+						return true
+					}
+					cl, isCL := unparen(init).(*ast.CompositeLit)
+					if !isCL {
+						return true
+					}
+					for _, el := range cl.Elts {
+						if kv, ok := el.(*ast.KeyValueExpr); ok {
+							addFunc(kv.Value)
+						} else {
+							addFunc(el)
+						}
+					}
+					return true
+				})
 			}
 			return true
 		})
@@ -279,8 +335,8 @@ func c19ErrorsAbort(c *Ctx, r *Report) {
 				}
 			}
 			if test != nil {
-				if be, ok := unparen(test.Cond).(*ast.BinaryExpr); ok && be.Op == token.NEQ && identObj(info, be.X) == errObj {
-					if id, ok := unparen(be.Y).(*ast.Ident); ok && id.Name == "nil" && endsInExit(test.Body) {
+				if tested := nilTestOperand(info, test.Cond, token.NEQ); tested != nil && identObj(info, tested) == errObj {
+					if endsInExit(test.Body) {
 						// the exit must be a panic or a return of a non-nil error
 						last := test.Body.List[len(test.Body.List)-1]
 						switch x := last.(type) {
@@ -361,7 +417,7 @@ func c19Entry(c *Ctx, r *Report, e *FuncRef, st *Staged) {
 		if !ok || is.Pos() < parseCall.End() || is.Pos() > create.Pos() {
 			continue
 		}
-		if strings.Contains(exprString(is.Cond), "!= nil") && endsInExit(is.Body) {
+		if nilTestOperand(e.Pkg.TypesInfo, is.Cond, token.NEQ) != nil && endsInExit(is.Body) {
 			propagated = true
 		}
 	}
@@ -656,4 +712,27 @@ func c19NoSwallowedPanics(c *Ctx, r *Report, clause string) {
 	r.Check(len(bad) == 0, clause, "R7 ERROR-DISCIPLINE", "repo/no-panic-is-swallowed", "-",
 		fmt.Sprintf("%d function(s) call recover(); each ends in a panic or a non-zero exit whenever something was recovered", n),
 		strings.Join(bad, "; "))
+}
+
+// nilTestOperand: cond is `x <op> nil` or `nil <op> x` (op is token.NEQ or token.EQL); the operand x, else nil.
+func nilTestOperand(info *types.Info, cond ast.Expr, op token.Token) ast.Expr {
+	be, ok := unparen(cond).(*ast.BinaryExpr)
+	if !ok || be.Op != op {
+		return nil
+	}
+	isNil := func(e ast.Expr) bool {
+		id, ok := unparen(e).(*ast.Ident)
+		if !ok {
+			return false
+		}
+		_, isN := info.Uses[id].(*types.Nil)
+		return isN
+	}
+	switch {
+	case isNil(be.Y) && !isNil(be.X):
+		return unparen(be.X)
+	case isNil(be.X) && !isNil(be.Y):
+		return unparen(be.Y)
+	}
+	return nil
 }
